@@ -550,6 +550,14 @@ class Engine:
                 return [(st, SV(XREAL, XR.nan))]
             if n == "inf":
                 return [(st, SV(XREAL, XR.pinf))]
+        if self.spec:
+            # a local the contract names as it was called when the contract was written (baseline/locals.json): follow a
+            # pure renaming of that local in the current source
+            m = self.local_alias().get(n)
+            if m is not None and m in st.env:
+                v = st.env[m]
+                self.check_stale(v, st, m)
+                return [(st, v)]
         v = self.global_const(n)
         if v is not None:
             return [(st, v)]
@@ -560,10 +568,45 @@ class Engine:
             return [(st, SV(Ty("type"), z3.IntVal(self.class_id(n))))]
         raise Unsupported("name %s" % n)
 
+    _RECORDED_LOCALS = None
+
+    def local_alias(self):
+        """{name used in the sidecar specs -> name the same local has in the current source} for the function being executed.
+        The recorded names are those of the tree the contracts were written against; the mapping aligns the recorded and the
+        current sequence of first bindings and pairs up the replaced stretches of equal length.  It only decides which
+        program variable a spec name denotes -- every obligation is still checked on the current code."""
+        f = self.func
+        q = getattr(f, "qual", None)
+        if q is None or not hasattr(f, "store_names"):
+            return {}
+        cache = self.__dict__.setdefault("_alias_cache", {})
+        if q not in cache:
+            if Engine._RECORDED_LOCALS is None:
+                import json
+                import os
+                p = os.path.join(os.path.dirname(os.path.dirname(os.path.abspath(__file__))), "baseline", "locals.json")
+                try:
+                    with open(p) as fh:
+                        Engine._RECORDED_LOCALS = json.load(fh)
+                except OSError:
+                    Engine._RECORDED_LOCALS = {}
+            rec = Engine._RECORDED_LOCALS.get(q)
+            cur = f.store_names()
+            m = {}
+            if rec and rec != cur:
+                import difflib
+                for tag, i1, i2, j1, j2 in difflib.SequenceMatcher(None, rec, cur, autojunk=False).get_opcodes():
+                    if tag == "replace" and i2 - i1 == j2 - j1:
+                        for a, b in zip(rec[i1:i2], cur[j1:j2]):
+                            if a not in cur:
+                                m[a] = b
+            cache[q] = m
+        return cache[q]
+
     def check_stale(self, v, st, n):
         org = getattr(v, "const", None)
         if isinstance(org, tuple) and org and org[0] == "heapalias":
-            _, key, arr = org
+            key, arr = org[1], org[2]
             if key in st.heap and not st.heap[key].eq(arr):
                 raise Unsupported("local %s aliases container %s that was modified since" % (n, key))
 
@@ -1513,6 +1556,21 @@ class Engine:
 
     def ev_Lambda(self, node, st):
         raise Unsupported("lambda")
+
+    def ev_ListComp(self, node, st):
+        # [x + y for x, y in zip(A, B)] / (x - y): the comprehension spelling of list(map(lambda x, y: x + y, A, B))
+        from pyvc.calls import elementwise
+        g = node.generators[0] if len(node.generators) == 1 else None
+        e = node.elt
+        if (g is not None and not g.ifs and not g.is_async and isinstance(g.target, ast.Tuple) and len(g.target.elts) == 2
+                and all(isinstance(t, ast.Name) for t in g.target.elts)
+                and isinstance(g.iter, ast.Call) and isinstance(g.iter.func, ast.Name) and g.iter.func.id == "zip"
+                and len(g.iter.args) == 2 and not g.iter.keywords and "zip" not in st.env
+                and isinstance(e, ast.BinOp) and isinstance(e.op, (ast.Add, ast.Sub))
+                and isinstance(e.left, ast.Name) and isinstance(e.right, ast.Name)
+                and [e.left.id, e.right.id] == [t.id for t in g.target.elts]):
+            return elementwise(self, g.iter.args[0], g.iter.args[1], 1 if isinstance(e.op, ast.Add) else -1, st)
+        raise Unsupported("list comprehension other than [x +/- y for x, y in zip(A, B)]")
 
     def ev_DictComp(self, node, st):
         hook = self.reg.specfuns.get("dictcomp_hook")
